@@ -5,6 +5,9 @@ index files on generated frame sequences, clause by clause."""
 import glob, os
 import sys
 import vlib, vbuild
+sys.path.insert(0, os.path.join(vlib.VERIF, "tools", "translate"))
+import tr_c08 as tr
+import tr_c20 as tr_units
 
 PROP = "C08"
 HARNESS = os.path.join(vlib.VERIF, "harness", "c08.cc")
@@ -16,7 +19,16 @@ def build():
 
 def run(tier, seed, replay=None):
     ck = vlib.Check(PROP, tier, seed)
+    tr_err = None
+    try:
+        tr_units.translate()
+        ck.extra["translator"] = tr.translate()
+    except Exception as e:
+        tr_err = "translator could not read the writers/readers: %r" % (e,)
     ob = vlib.lean_obligations(PROP, thorough=(tier == "thorough"))
+    if tr_err:
+        ob["ok"] = False
+        ob["failures"].append(tr_err)
     try:
         exe = build()
     except vbuild.BuildError as e:
